@@ -1,4 +1,5 @@
 import ScriggoV.Model.Order
+import ScriggoV.Model.DeclOrder
 import ScriggoV.Gen.MapRanges
 import ScriggoV.Spec.MapRangeClasses
 /-! Line protocol of C30.
@@ -6,6 +7,13 @@ import ScriggoV.Spec.MapRangeClasses
     count                      -> ok <generated sites> <classified sites>
     site <i>                   -> ok <file> <fn> <class> <hash> <generated hash>
     fold <class> <k> <v> …     -> ok <canonical final state>     (model of the class on the entries, in this order)
+    sortdecls <mode> (<kind> <name> <deps>)…
+                               -> ok <resolvable 0|1> <source position> …
+        the declarations of a package in source order (kind const|var|type|func, name `_` when
+        blank, deps the global names used, comma-separated, `-` for none); the answer is the order
+        of Model/DeclOrder.sortDeclarations (positions in the request) and whether every
+        declaration comes after what it uses. mode: byid (the dependency map looked up by
+        identifier), byname / byname-rev (by name, the map enumerated in source order / reversed)
 
 `fold` runs the abstract step of a class with fixed concrete parameters on the given entries;
 the harness sends a list and a shuffle of it (spec validation of `Model/Order.lean`). -/
@@ -57,7 +65,34 @@ def fold (cls : String) (l : List (Nat × Nat)) : Option String :=
     some (" ".intercalate (l.foldl (stepEmit (fun e => "SetVar " ++ toString e.1 ++ " " ++ toString e.2)) []))
   | _ => none
 
+def kindOf : String → Option DeclOrder.Kind
+  | "const" => some .const | "var" => some .var | "type" => some .type | "func" => some .func
+  | _ => none
+
+def declsOf : Nat → List String → Option DeclOrder.Entries
+  | _, [] => some []
+  | i, k :: n :: d :: rest => do
+    let k ← kindOf k
+    let r ← declsOf (i + 1) rest
+    let ds := if d == "-" then [] else d.splitOn ","
+    pure ((⟨i, k, n⟩, ds) :: r)
+  | _, _ => none
+
+def sortdecls (mode : String) (es : DeclOrder.Entries) : Option String := do
+  let lookup ← match mode with
+    | "byid" => some (DeclOrder.byId es)
+    | "byname" => some (DeclOrder.byName es)
+    | "byname-rev" => some (DeclOrder.byName es.reverse)
+    | _ => none
+  let order := DeclOrder.sortDeclarations lookup (es.map (·.1))
+  let res := DeclOrder.resolvable (DeclOrder.byId es) order
+  pure ((if res then "1" else "0") ++ " " ++ " ".intercalate (order.map (fun d => toString d.id)))
+
 def handle : List String → Option String
+  | "sortdecls" :: mode :: rest => do
+    let es ← declsOf 0 rest
+    let r ← sortdecls mode es
+    pure ("ok " ++ r)
   | ["count"] =>
     some ("ok " ++ toString Gen.MapRanges.sites.length ++ " " ++ toString Classified.sites.length)
   | ["site", i] => do
